@@ -1,6 +1,6 @@
 (** C16 — which selectors of a rule expression promql/series probes: an executable model of
-    getNonFallbackSelectors / appendJoinSelectors / selectorHasFallback / sourceHasFallback
-    (internal/checks/promql_series.go, after fix 2db4381) over a small model of the Source tree that
+    getNonFallbackSelectors / appendOperandSelectors / appendUnlessSelectors / selectorHasFallback / sourceHasFallback
+    (internal/checks/promql_series.go, after the fixes 2db4381 and the nested-unless fix) over a small model of the Source tree that
     utils.LabelsSource builds, for the fragment of PromQL made of vector selectors, selector-free operands that
     always return (vector(N), hour(), ...), wrappers that keep the source (aggregations, functions of one
     vector, arithmetic with a number), comparisons with a number, [or], joins (arithmetic / comparison / [and]
@@ -79,21 +79,27 @@ Fixpoint or_fallback (e : sexpr) (i : N) : bool :=
 
 Definition opt_list (o : option N) : list N := match o with Some i => [i] | None => [] end.
 
-(** appendJoinSelectors: the selector of every join operand unless it has its own or-fallback, and the joins
-    nested in it (not its unless operands) *)
-Fixpoint join_sels (fb : N -> bool) (s : source) : list N :=
+(** appendOperandSelectors: the selector of an operand unless it has its own or-fallback, the operands joined to it,
+    and - appendUnlessSelectors - its conditional [unless] operands, recursively *)
+Fixpoint operand_sels (fb : N -> bool) (s : source) : list N :=
   match s with
-  | Src sel _ _ joins _ =>
-      (match sel with Some i => if fb i then [] else [i] | None => [] end) ++ flat_map (join_sels fb) joins
+  | Src sel _ _ joins unless =>
+      (match sel with Some i => if fb i then [] else [i] | None => [] end)
+      ++ flat_map (operand_sels fb) joins
+      ++ flat_map (fun u => if src_cond u then operand_sels fb u else []) unless
   end.
+
+Definition walk (fb : N -> bool) (srcs : list source) : list N := flat_map (operand_sels fb) srcs.
+Definition walk_cond (fb : N -> bool) (srcs : list source) : list N :=
+  flat_map (fun u => if src_cond u then operand_sels fb u else []) srcs.
 
 (** getNonFallbackSelectors *)
 Definition checked_with (fb : N -> bool) (srcs : list source) : list N :=
   let fallback := has_fallback srcs in
   flat_map (fun s =>
     (if fallback then [] else opt_list (src_sel s))
-    ++ flat_map (join_sels fb) (src_joins s)
-    ++ flat_map (fun u => if src_cond u then opt_list (src_sel u) else []) (src_unless s)) srcs.
+    ++ walk fb (src_joins s)
+    ++ walk_cond fb (src_unless s)) srcs.
 
 Definition checked (e : sexpr) : list N := checked_with (or_fallback e) (sources_of e).
 
